@@ -26,16 +26,32 @@ Open Scope string_scope.
   Definition of_ppoint (q : ppoint) : val := VL [VF (px q); VF (py q); VF (pz q)].
   Definition dec_list {A} (dec : val -> option A) (v : val) : option (list A) :=
     match as_L v with Some l => all_opt (map dec l) | None => None end.
-  (* observed (list, error?) *)
-  Definition obs_list {A} (dec : val -> option A) (obs : val) : option (list A * bool) :=
+  (* the code of a SpatialIdError as the harness reports it (the part of Error() before the first comma) *)
+  Definition ekind_name (k : ekind) : string :=
+    match k with EInputValue => "InputValueError" | EOptionFailed => "OptionFailedError" | EValueConvert => "ValueConvertError"
+               | EOther => "OtherError" end.
+  (* observed (list, error): no error = the list itself; an error = VE (VL [list; VS code]) *)
+  Definition obs_list {A} (dec : val -> option A) (obs : val) : option (list A * option string) :=
     match obs with
     | VPanic | VTimeout => None
-    | _ => match dec_list dec (err_payload obs) with Some l => Some (l, is_err obs) | None => None end
+    | VE (VL [pl; VS code]) => match dec_list dec pl with Some l => Some (l, Some code) | None => None end
+    | VE _ => None
+    | _ => match dec_list dec obs with Some l => Some (l, None) | None => None end
     end.
-  Definition res_val {A} (enc : A -> val) (r : list A * bool) : val :=
-    let v := VL (map enc (fst r)) in if snd r then VE v else v.
-  Definition corr_res {A} (eqb : A -> A -> bool) (m o : list A * bool) : bool :=
-    Bool.eqb (snd m) (snd o) && forall2b eqb (fst m) (fst o).
+  Definition res_val {A} (enc : A -> val) (r : list A * option ekind) : val :=
+    let v := VL (map enc (fst r)) in match snd r with Some k => VE (VL [v; VS (ekind_name k)]) | None => v end.
+  Definition kind_eqb (m : option ekind) (o : option string) : bool :=
+    match m, o with
+    | None, None => true
+    | Some k, Some c => String.eqb (ekind_name k) c
+    | _, _ => false
+    end.
+  Definition corr_res {A} (eqb : A -> A -> bool) (m : list A * option ekind) (o : list A * option string) : bool :=
+    kind_eqb (snd m) (snd o) && forall2b eqb (fst m) (fst o).
+  Definition is_some {A} (o : option A) : bool := match o with None => false | Some _ => true end.
+  (* whatever goes wrong in these two functions is reported as a conversion error (errors.ValueConvertErrorCode) *)
+  Definition conv_kind_ok (o : option string) : bool :=
+    match o with None => true | Some c => String.eqb c "ValueConvertError" end.
   Definition is_none {A} (o : option A) : bool := match o with None => true | Some _ => false end.
 
   (* per-point status of a numeric claim *)
@@ -96,10 +112,11 @@ Open Scope string_scope.
           | Some ps, Some o =>
               let m := to_projected epsg_known tr ps crs in
               let corr := corr_res ppoint_eqb m o in
-              let '(ol, oe) := o in
+              let '(ol, ok) := o in
+              let oe := is_some ok in
               if negb (epsg_known crs) then
                 (* an unknown EPSG code is reported as a conversion error - for every list, the empty one included *)
-                mkv corr oe "-" (res_val of_ppoint m)
+                mkv corr (oe && conv_kind_ok ok) "-" (res_val of_ppoint m)
               else
                 (* error exactly when the transform refuses a point; without error, element i is the transform of point i (order) with
                    point i's altitude bit for bit. The transform may be asked at the point's height (as the code does today) or at height 0
@@ -111,7 +128,7 @@ Open Scope string_scope.
                 let numeric := match st with POk => true | _ => false end in
                 (* EPSG:3857 is defined on every valid point: no error expected there *)
                 let total := negb ((crs =? orth_crs)%Z && oe) in
-                let prop := structural && numeric && total in
+                let prop := structural && numeric && total && conv_kind_ok ok in
                 let cls := if corr && structural && total then match st with PAlt => "alt_fed_to_datum" | _ => "-" end else "-" in
                 mkv corr prop cls (res_val of_ppoint m)
           | _, _ => bad_case
@@ -133,8 +150,9 @@ Open Scope string_scope.
           | Some qs, Some o =>
               let m := to_geographic epsg_known tr qs crs in
               let corr := corr_res point_eqb m o in
-              let '(ol, oe) := o in
-              if negb (epsg_known crs) then mkv corr oe "-" (res_val of_gpoint m)
+              let '(ol, ok) := o in
+              let oe := is_some ok in
+              if negb (epsg_known crs) then mkv corr (oe && conv_kind_ok ok) "-" (res_val of_gpoint m)
               else
                 (* error exactly when some point is refused (by the transform or by NewPoint); without error: element i is
                    NewPoint(transform of point i) - order - and carries point i's altitude bit for bit *)
@@ -142,7 +160,7 @@ Open Scope string_scope.
                   err_agrees oe (fun h => existsb (back_refusedb crs h) qs) &&
                   (if oe then true else forall2b (back_elem_ok crs) qs ol) in
                 let alts := if oe then true else forall2b (fun q g => feqb_bits (palt g) (pz q)) qs ol in
-                mkv corr (order && alts) "-" (res_val of_gpoint m)
+                mkv corr (order && alts && conv_kind_ok ok) "-" (res_val of_gpoint m)
           | _, _ => bad_case
           end
       | _ => bad_case
@@ -157,8 +175,8 @@ Open Scope string_scope.
        the code never reached are judged on what the transform would have returned for them. *)
     Definition rt_stat_refused (p : point) (q : ppoint) : pstat :=
       match back_point tr orth_crs q with
-      | Some g => if check_fwd_xy yref p q && check_back p g then POk else alt_excuse p
-      | None => alt_excuse p
+      | inl g => if check_fwd_xy yref p q && check_back p g then POk else alt_excuse p
+      | inr _ => alt_excuse p
       end.
     Definition d_round_trip (args : list val) (obs : val) : verdict :=
       match args, obs with
@@ -168,11 +186,11 @@ Open Scope string_scope.
               let m := round_trip epsg_known tr ps orth_crs in
               let consts_ok := (cg =? geo_crs)%Z && (co =? orth_crs)%Z in
               let corr := consts_ok && corr_res ppoint_eqb (fst m) f && corr_res point_eqb (snd m) b in
-              let fwd_shape := consts_ok && negb (snd f) && (length (fst f) =? length ps)%nat in
-              let shape := fwd_shape && negb (snd b) && (length (fst b) =? length ps)%nat in
+              let fwd_shape := consts_ok && negb (is_some (snd f)) && (length (fst f) =? length ps)%nat in
+              let shape := fwd_shape && negb (is_some (snd b)) && (length (fst b) =? length ps)%nat in
               (* every valid point must come back: an error on the way back is a failed round trip *)
               let st := if shape then worst (map2 rt_stat ps (combine (fst f) (fst b)))
-                        else if fwd_shape && snd b then
+                        else if fwd_shape && is_some (snd b) then
                                match worst (map2 rt_stat_refused ps (fst f)) with POk => PBad | s => s end
                              else PBad in
               let prop := shape && match st with POk => true | _ => false end in
